@@ -796,12 +796,55 @@ func retVals(r *ssa.Return) []ssa.Value {
 // still reachable, v may be nil there.
 func (p *Prog) knownNonNilAt(fn *ssa.Function, v ssa.Value, b *ssa.BasicBlock) bool {
 	sv := stripConv(v)
-	g := Guard{Match: func(f Fact) bool { return f.Kind == NonNil && (f.V == v || f.V == sv) }}
+	// a variable that lives in a cell (named result, captured variable): every load of the
+	// cell stands for it, as long as nothing is stored into the cell between test and use
+	var cell *ssa.Alloc
+	if l, ok := sv.(*ssa.UnOp); ok && l.Op == token.MUL {
+		cell, _ = l.X.(*ssa.Alloc)
+	}
+	sameCell := func(x ssa.Value) bool {
+		if cell == nil {
+			return false
+		}
+		l, ok := stripConv(x).(*ssa.UnOp)
+		return ok && l.Op == token.MUL && l.X == ssa.Value(cell)
+	}
+	g := Guard{Match: func(f Fact) bool { return f.Kind == NonNil && (f.V == v || f.V == sv || sameCell(f.V)) }}
 	del := passEdges(fn, g)
 	if len(del) == 0 {
 		return false
 	}
-	return !reach(fn, []*ssa.BasicBlock{fn.Blocks[0]}, del, nil)[b.Index]
+	if reach(fn, []*ssa.BasicBlock{fn.Blocks[0]}, del, nil)[b.Index] {
+		return false
+	}
+	if cell != nil {
+		// no store into the cell may lie between a passing test and the use
+		var starts []*ssa.BasicBlock
+		for e := range del {
+			starts = append(starts, fn.Blocks[e.from].Succs[e.succ])
+		}
+		after := reach(fn, starts, nil, nil)
+		for _, r := range *cell.Referrers() {
+			st, ok := r.(*ssa.Store)
+			if !ok || st.Addr != ssa.Value(cell) {
+				continue
+			}
+			sb := st.Block()
+			if !after[sb.Index] {
+				continue
+			}
+			if sb == b || reach(fn, sb.Succs, nil, nil)[b.Index] {
+				// the spill of the very value being returned (`*err = Fail(*err)`) comes after the use
+				if sb == b {
+					if l, ok := sv.(*ssa.UnOp); ok && l.Block() == b && instrIndex(l) < instrIndex(st) {
+						continue
+					}
+				}
+				return false
+			}
+		}
+	}
+	return true
 }
 
 // successReturns lists the Return instructions of fn whose error result may be nil
